@@ -146,6 +146,14 @@ class Proj:
                 return self.force[key]
         return v
 
+    def inc_suffix(self, name: str) -> str:
+        """Suffix of a generated include file: a header suffix, or one of the X-macro / table idioms that are
+        #included but are neither header nor source by suffix (.inc, .tbl)."""
+        sfx = self.pick(name, ['h', 'h', 'inc', 'tbl'])
+        if sfx != 'h':
+            self.feat('include-file-suffix:' + sfx)
+        return sfx
+
     def flip(self, name: str, prob: float) -> bool:
         v = self.rng.random() < prob
         return bool(self.force.get(name, v))
@@ -236,12 +244,13 @@ def blk_ct_header(P: Proj, p: str, d: str) -> None:
     P.feat('ct-header', 'ct-header:' + variant)
     used = P.take(1)
     fns: T.List[str] = []
+    hsfx = P.inc_suffix('ct_header.suffix') if variant in ('plain', 'capture') else 'h'
     if variant == 'plain':
-        P.emit(d, f"{p}_h = custom_target('{p}_h', input: '{p}.def', output: '{p}.h',\n"
+        P.emit(d, f"{p}_h = custom_target('{p}_h', input: '{p}.def', output: '{p}.{hsfx}',\n"
                   f"  command: [py, gen, 'hdr', '{p}', '@OUTPUT@', '@INPUT@'])")
         hdr_src, lib_extra = f'{p}_h', f'{p}_h'
     elif variant == 'capture':
-        P.emit(d, f"{p}_h = custom_target('{p}_h', input: '{p}.def', output: '{p}.h', capture: true,\n"
+        P.emit(d, f"{p}_h = custom_target('{p}_h', input: '{p}.def', output: '{p}.{hsfx}', capture: true,\n"
                   f"  command: [py, gen, 'hdr', '{p}', '-', '@INPUT@'])")
         hdr_src, lib_extra = f'{p}_h', f'{p}_h'
     elif variant == 'capture-pair':
@@ -270,7 +279,7 @@ def blk_ct_header(P: Proj, p: str, d: str) -> None:
         fns.append('f_' + p)
         P.feat('ct-multi-output', 'ct-index')
     P.val['V_' + p] = v
-    hm = (f'{p}.h', 'V_' + p)
+    hm = (f'{p}.{hsfx}', 'V_' + p)
     um, uc = P.use_of(used, rng)
     P.csrc(d, f'{p}_a.c', p + '_a', [hm] + um, uc)
     P.csrc(d, f'{p}_b.c', p + '_b', [hm] if rng.random() < 0.5 else [], [])
@@ -381,6 +390,7 @@ def blk_ct_chain(P: Proj, p: str, d: str) -> None:
     """custom-target chain: each step consumes the previous via @INPUT@ / depends: / target-in-command / index."""
     rng = P.rng
     n = rng.randint(2, 4)
+    csfx = P.inc_suffix('ct_chain.suffix')
     P.feat('ct-chain', f'ct-chain:len{n}')
     acc = 0
     prev = None
@@ -390,7 +400,7 @@ def blk_ct_chain(P: Proj, p: str, d: str) -> None:
         acc += P.deffile(d, nm)
         last = i == n - 1
         mode = 'hdr' if last else 'txt'
-        out = f'{p}.h' if last else f'{nm}.txt'
+        out = f'{p}.{csfx}' if last else f'{nm}.txt'
         oname = p if last else nm
         multi = P.flip('ct_chain.multi', 0.3) and not last
         outs = f"['{out}', '{nm}_aux.txt']" if multi else f"'{out}'"
@@ -419,7 +429,7 @@ def blk_ct_chain(P: Proj, p: str, d: str) -> None:
         prev = var
         prev_multi = multi
     P.val['V_' + p] = acc
-    hm = (f'{p}.h', 'V_' + p)
+    hm = (f'{p}.{csfx}', 'V_' + p)
     if rng.random() < 0.5:
         P.emit(d, f"{p}_dep = declare_dependency(sources: {p}_h)")
         P.feat('declare_dependency-sources', 'header-only-dep')
@@ -491,8 +501,29 @@ def blk_built_tool(P: Proj, p: str, d: str) -> None:
         for n in ns:
             P.val['V_' + n] = P.deffile(d, n) + bias
             hms.append((n + '.h', 'V_' + n))
-        P.emit(d, f"{p}_tg = generator({p}_tool, arguments: ['@BASENAME@', '@OUTPUT@', '@INPUT@'], output: '@BASENAME@.h')")
-        srcs.append(f"{p}_tg.process({', '.join(repr(n + '.def') for n in ns)})")
+        ins = ', '.join(repr(n + '.def') for n in ns)
+        tdep = P.pick('built_tool.gen_depends', ['none', 'none', 'process', 'generator'])
+        if tdep == 'none':
+            P.emit(d, f"{p}_tg = generator({p}_tool, arguments: ['@BASENAME@', '@OUTPUT@', '@INPUT@'], output: '@BASENAME@.h')")
+            srcs.append(f"{p}_tg.process({ins})")
+        else:
+            # the built generator program additionally reads a file made by a custom target, named through
+            # generator(depends:) or per call through process(depends:): the rule needs BOTH the program and the file
+            aux = P.deffile(d, p + 'taux')
+            for n in ns:
+                P.val['V_' + n] += aux
+            P.emit(d, f"{p}_taux = custom_target('{p}_taux', input: '{p}taux.def', output: '{p}_taux.txt',\n"
+                      f"  command: [py, gen, 'txt', '{p}_taux', '@OUTPUT@', '@INPUT@'])")
+            P.ntargets += 1
+            if tdep == 'generator':
+                P.emit(d, f"{p}_tg = generator({p}_tool, arguments: ['@BASENAME@', '@OUTPUT@', '@INPUT@', {p}_taux.full_path()],\n"
+                          f"  output: '@BASENAME@.h', depends: {p}_taux)")
+                srcs.append(f"{p}_tg.process({ins})")
+            else:
+                P.emit(d, f"{p}_tg = generator({p}_tool, arguments: ['@BASENAME@', '@OUTPUT@', '@INPUT@', '@EXTRA_ARGS@'],\n"
+                          f"  output: '@BASENAME@.h')")
+                srcs.append(f"{p}_tg.process({ins}, extra_args: [{p}_taux.full_path()], depends: {p}_taux)")
+            P.feat('built-tool-generator-depends:' + tdep)
         P.feat('built-tool-generator')
     P.csrc(d, f'{p}_a.c', p + '_a', hms, [])
     P.emit(d, f"{p}_lib = {_libfn(rng)}('{p}l', '{p}_a.c', {', '.join(srcs)})")
@@ -808,11 +839,12 @@ def blk_preprocess(P: Proj, p: str, d: str) -> None:
     rng = P.rng
     P.feat('preprocess')
     P.val['V_' + p] = P.deffile(d, p)
-    P.emit(d, f"{p}_h = custom_target('{p}_h', input: '{p}.def', output: '{p}.h',\n"
+    sfx = P.inc_suffix('preprocess.suffix')
+    P.emit(d, f"{p}_h = custom_target('{p}_h', input: '{p}.def', output: '{p}.{sfx}',\n"
               f"  command: [py, gen, 'hdr', '{p}', '@OUTPUT@', '@INPUT@'])")
     k = rng.randint(1, 30)
     n = p + 't'
-    P.files[P.path(d, f'{n}.c.in')] = f'#include "{p}.h"\nint f_{n}(void) {{ return {k} + V_{p}; }}\n'
+    P.files[P.path(d, f'{n}.c.in')] = f'#include "{p}.{sfx}"\nint f_{n}(void) {{ return {k} + V_{p}; }}\n'
     P.val['f_' + n] = k + P.val['V_' + p]
     P.emit(d, f"{p}_pp = cc.preprocess('{n}.c.in', output: '@BASENAME@', depends: {p}_h)")
     P.csrc(d, f'{p}_a.c', p + '_a', [], ['f_' + n])
